@@ -3,7 +3,7 @@ Model of `mici.transitions` integration transitions at the level of an integrato
 
 * `Dist K α` — finite distributions with exact weights in an ordered field `K`.
 * `metropolis` — `MetropolisIntegrationTransition._sample_n_step` (static and random length).
-* `Tree K` — the portion of the orbit a dynamic transition can see once its direction draws
+* `TTree K` — the portion of the orbit a dynamic transition can see once its direction draws
   are fixed: a binary tree whose leaves are orbit points (weight, "not divergent" flag) and
   whose inner nodes carry the success flag of the integrator step joining the two halves and
   the termination-criterion flag of that sub-tree (including the extra sub-tree checks).
@@ -83,65 +83,65 @@ def metropolisRandom (o : MOrbit K) (lo hi : Nat) (s : Int × Bool) : Dist K (In
 
 /-! ### Dynamic (NUTS-like) transitions -/
 
-inductive Tree (K : Type) where
-  | leaf (w : K) (ok : Bool) : Tree K
-  | node (l r : Tree K) (edgeOk term : Bool) : Tree K
+inductive TTree (K : Type) where
+  | leaf (w : K) (ok : Bool) : TTree K
+  | node (l r : TTree K) (edgeOk term : Bool) : TTree K
   deriving Repr
 
-namespace Tree
+namespace TTree
 
-def size : Tree K → Nat
+def size : TTree K → Nat
   | leaf _ _ => 1
   | node l r _ _ => l.size + r.size
 
 /-- `Σ_k w_k * g k` over the leaves (offsets from the left end). -/
-def wsum : Tree K → (Nat → K) → K
+def wsum : TTree K → (Nat → K) → K
   | leaf w _, g => w * g 0
   | node l r _ _, g => l.wsum g + r.wsum (fun k => g (k + l.size))
 
 /-- total weight of the (sub-)tree: `_SubTree.weight` -/
-def W (t : Tree K) : K := t.wsum (fun _ => 1)
+def W (t : TTree K) : K := t.wsum (fun _ => 1)
 
 /-- `_build_tree` does not terminate on this sub-tree: every leaf is reached by a successful
 step and is not divergent, and no sub-tree of depth ≥ 1 (including itself) satisfies the
 termination criterion. -/
-def valid : Tree K → Bool
+def valid : TTree K → Bool
   | leaf _ ok => ok
   | node l r e τ => l.valid && r.valid && e && !τ
 
 /-- termination flag of the tree as a whole (leaves are never checked) -/
-def termFlag : Tree K → Bool
+def termFlag : TTree K → Bool
   | leaf _ _ => false
   | node _ _ _ τ => τ
 
 /-- everything strictly inside is fine (the tree can become the current trajectory tree) -/
-def good : Tree K → Bool
+def good : TTree K → Bool
   | leaf _ ok => ok
   | node l r e _ => l.valid && r.valid && e
 
 /-- all weights are non-negative -/
-def Nonneg : Tree K → Prop
+def Nonneg : TTree K → Prop
   | leaf w _ => 0 ≤ w
   | node l r _ _ => l.Nonneg ∧ r.Nonneg
 
 /-- leaves of positive weight are not divergent (slice: `u ≤ exp(-h)` ⇒ `h + log u ≤ 0 ≤ Δ`) -/
-def PosOk : Tree K → Prop
+def PosOk : TTree K → Prop
   | leaf w ok => 0 < w → ok = true
   | node l r _ _ => l.PosOk ∧ r.PosOk
 
 /-- Proposal carried by a sub-tree freshly built by `_build_tree` in direction `fwd`
 (`fwd = true`: built left to right, so the *outer* half is the right one):
 `proposal = outer_proposal if rng.uniform() < W_outer / W_tree else inner_proposal`. -/
-def propose (fwd : Bool) : Tree K → Dist K Nat
+def propose (fwd : Bool) : TTree K → Dist K Nat
   | leaf _ _ => Dist.pure 0
   | node l r _ _ =>
     let wOuter := if fwd then r.W else l.W
     Dist.bind (bernoulli (ratio wOuter (l.W + r.W))) (fun pickOuter =>
       if pickOuter = fwd then Dist.map (· + l.size) (propose fwd r) else propose fwd l)
 
-end Tree
+end TTree
 
-open Tree
+open TTree
 
 inductive Res where
   | stopped (c : Nat)   -- the tree expansion stopped below the top; `c` is the chain state
@@ -156,7 +156,7 @@ def Res.val : Res → Nat
 current trajectory tree is `cur` with current sample `c` (offset inside `cur`) and the
 direction drawn is the one towards the sibling `sib`.  Offsets of the result are relative to
 the parent `(cur, sib)` resp. `(sib, cur)`. -/
-def stepUp (cur sib : Tree K) (curIsLeft : Bool) (edgeOk : Bool) (c : Nat) : Dist K Res :=
+def stepUp (cur sib : TTree K) (curIsLeft : Bool) (edgeOk : Bool) (c : Nat) : Dist K Res :=
   let here := if curIsLeft then c else c + sib.size
   if cur.termFlag then Dist.pure (.stopped here)        -- `break` after the previous merge
   else if !(edgeOk && sib.valid) then Dist.pure (.stopped here)   -- `_build_tree` terminated
@@ -168,7 +168,7 @@ def stepUp (cur sib : Tree K) (curIsLeft : Bool) (edgeOk : Bool) (c : Nat) : Dis
 
 /-- The transition from the leaf at offset `start` when the direction draws are the ones
 that make `t` the maximal trajectory tree. -/
-def climb : (t : Tree K) → (start : Nat) → Dist K Res
+def climb : (t : TTree K) → (start : Nat) → Dist K Res
   | leaf _ _, _ => Dist.pure (.top 0)
   | node l r e _, start =>
     if start < l.size then
@@ -181,7 +181,7 @@ def climb : (t : Tree K) → (start : Nat) → Dist K Res
         | .top c => stepUp r l false e c)
 
 /-- next chain state (offset in `t`) -/
-def final (t : Tree K) (start : Nat) : Dist K Nat := Dist.map Res.val (climb t start)
+def final (t : TTree K) (start : Nat) : Dist K Nat := Dist.map Res.val (climb t start)
 
 /-! ### Statistics reported by a dynamic transition (deterministic given tree and start) -/
 
@@ -194,7 +194,7 @@ the leaves whose integrator step succeeded: exactly those are counted in `n_step
 the build ended: `ok`, terminated by the criterion, or by an integrator error / divergence.
 Mirrors the depth-first order of `_build_tree`: inner half first, then the connecting step
 into the outer half. -/
-def buildVisit (fwd : Bool) : Tree K → (entryOk : Bool) → List Nat × BuildEnd
+def buildVisit (fwd : Bool) : TTree K → (entryOk : Bool) → List Nat × BuildEnd
   | leaf _ ok, entryOk =>
     if entryOk then ([0], if ok then .ok else .err) else ([], .err)
   | node l r e τ, entryOk =>
@@ -216,7 +216,7 @@ def buildVisit (fwd : Bool) : Tree K → (entryOk : Bool) → List Nat × BuildE
 /-- Leaves visited over the whole transition (besides the start), whether the expansion is
 still going on when `t` has become the trajectory tree, the number of loop iterations
 executed and whether an integrator error / divergence was met. -/
-def visited : (t : Tree K) → (start : Nat) → List Nat × Bool × Nat × Bool
+def visited : (t : TTree K) → (start : Nat) → List Nat × Bool × Nat × Bool
   | leaf _ _, _ => ([], true, 0, false)
   | node l r e _, start =>
     if start < l.size then
@@ -234,16 +234,16 @@ def visited : (t : Tree K) → (start : Nat) → List Nat × Bool × Nat × Bool
       (v ++ b.1, b.2 = .ok, p.2.2.1 + 1, b.2 = .err)
 
 /-- weight of the leaf at an offset (0 outside) -/
-def Tree.weightAt : Tree K → Nat → K
+def TTree.weightAt : TTree K → Nat → K
   | .leaf w _, _ => w
   | .node l r _ _, k => if k < l.size then l.weightAt k else r.weightAt (k - l.size)
 
 /-- `n_step` as the code counts it: one increment per successful leaf of `_build_tree`. -/
-def nStep (t : Tree K) (start : Nat) : Nat := (visited t start).1.length
+def nStep (t : TTree K) (start : Nat) : Nat := (visited t start).1.length
 
 /-- `accept_stat`: 0 if an error flag is set, else the mean over the visited leaves of
 `min(1, w_leaf / w_start)` (0 when nothing was visited). -/
-def acceptStat (t : Tree K) (start : Nat) : K :=
+def acceptStat (t : TTree K) (start : Nat) : K :=
   let v := visited t start
   if v.2.2.2 then 0 else
   if v.1.length = 0 then 0 else
@@ -260,7 +260,7 @@ structure DOrbit (K : Type) where
   term : Int → Nat → Bool
 
 /-- perfect tree of depth `m` over the orbit points `[a, a + 2^m)` -/
-def treeOf (o : DOrbit K) : Nat → Int → Tree K
+def treeOf (o : DOrbit K) : Nat → Int → TTree K
   | 0, a => .leaf (o.w a) (o.ok a)
   | m + 1, a => .node (treeOf o m a) (treeOf o m (a + 2 ^ m)) (o.edgeOk (a + 2 ^ m - 1)) (o.term a (m + 1))
 
